@@ -87,6 +87,29 @@ struct property_base
     using type = Property;
 };
 
+/// Reports a region of image_read_settings ( top left corner and dimensions, once a zero
+/// dimension has been replaced by the image's ) that does not lie inside the image the file
+/// declares. The readers address their row buffers with it.
+template< typename Width, typename Height >
+inline
+void check_read_region( image_read_settings_base const& settings
+                      , Width                           width
+                      , Height                          height
+                      )
+{
+    using int_t = point_t::value_type;
+
+    int_t const w = static_cast< int_t >( width  );
+    int_t const h = static_cast< int_t >( height );
+
+    io_error_if(  settings._top_left.x < 0 || settings._top_left.y < 0
+               || settings._dim.x      < 0 || settings._dim.y      < 0
+               || settings._top_left.x > w || settings._dim.x > w - settings._top_left.x
+               || settings._top_left.y > h || settings._dim.y > h - settings._top_left.y
+               , "The region to read lies outside of the image."
+               );
+}
+
 } // namespace detail
 
 struct read_support_true  { static constexpr bool is_supported = true; };
